@@ -1,7 +1,11 @@
 """C12  The link base is what the source says, or an error."""
-from ..common import require
+import os
+
+from ..common import require, BUILD
 from ..obligations import Ob
-from ..symasm import assemble, word_at
+from ..symasm import assemble, word_at, write_aux_file
+
+AUX = os.path.join(BUILD, "aux", "c12")
 
 H = "pdpverif.props.c12:h_link"
 HS = "pdpverif.props.c12:h_skip"
@@ -35,6 +39,11 @@ def term_sum(terms, vals):
 
 def h_link(params, vals, ctx):
     files = [(n, t) for n, t in params["files"]]
+    if params.get("aux"):
+        # real include files (concrete text) beside the source files
+        for n, t in params["aux"]:
+            write_aux_file("c12", n, t)
+        files = [(os.path.join(AUX, n), t) for n, t in files]
     mode = params["mode"]
     # ---- assumptions first (they are not retroactive) -------------------------------------
     for v, (lo, hi) in (params.get("ranges") or {}).items():
@@ -128,6 +137,23 @@ def obligations(tier, seed):
             else:
                 text = body + form + "\n"
             add(f"const/{where}/{form.split()[0]}", [("a.mac", text)], "accept", base=[[1, ["K"]]], vars_=["K"], probes=probes, length=4)
+    # one of the labels of the cancelling difference lives in an included file (its own link-base promise is settled with the parent's)
+    inc = [("c12_tbl.mac", "TBL:: .word 111, 222\nTBLEND::\n")]
+    for tag, text, diff, plen in (
+            ("include-first/K+FIN-TBL", ".include /c12_tbl.mac/\nX: .word X\n.link {K} + FIN - TBL\n.word 2\nFIN:\n", 8, 8),
+            ("include-first/K+M*(FIN-TBLEND)", ".include /c12_tbl.mac/\nX: .word X\n.link {K} + {M} * (FIN - TBLEND)\n.word 2\nFIN:\n", None, 8),
+            ("include-first/K+TBLEND-TBL", ".include /c12_tbl.mac/\nX: .word X\n.link {K} + TBLEND - TBL\n.word 2\nFIN:\n", 4, 8),
+            ("include-first/link-last", ".include /c12_tbl.mac/\nX: .word X\n.word 2\nFIN:\n.link {K} + FIN - TBL\n", 8, 8),
+            ("include-middle/K+TBLEND-TOP", "TOP: .word 1\n.include /c12_tbl.mac/\nX: .word X\n.link {K} + TBLEND - TOP\n", 6, 8),
+            ("include-last/K+TBL-TOP", ".link {K} + TBL - X\n.word 1\nX: .word X\n.include /c12_tbl.mac/\n", 2, 8)):
+        xoff = text.split("X: .word X")[0].count(".word") * 2 + (4 if text.split("X: .word X")[0].count(".include") else 0)
+        if diff is None:
+            add("cancel/" + tag, [("a.mac", text)], "accept", base=[[1, ["K"]], [4, ["M"]]], vars_=["K", "M"], probes=[[xoff, [[xoff, []]]]], length=plen, aux=inc)
+        else:
+            add("cancel/" + tag, [("a.mac", text)], "accept", base=[[1, ["K"]], [diff, []]], vars_=["K"], probes=[[xoff, [[xoff, []]]]], length=plen, aux=inc)
+    # labels of the same names exported by an earlier file: the file's own (later) labels are the ones that cancel
+    add("cancel/shadowed-export", [("a.mac", "FIRST:: .word 1\nLAST:: .word 2\n"), ("b.mac", ".link {K} + LAST - FIRST\nFIRST: .word 5, 6, 7\nLAST: .word LAST\n")],
+        "accept", base=[[1, ["K"]], [6, []]], vars_=["K"], probes=[[10, [[10, []]]]], length=12)
     # in the second of two files / first of two files
     add("const/file2", [("a.mac", body), ("b.mac", ".link {K}\nT: .word T\n")], "accept", base=[[1, ["K"]]], vars_=["K"],
         probes=probes + [[4, [[4, []]]]], length=6)
